@@ -778,18 +778,22 @@ func (ex *Exec) sliceOp(in *ssa.Slice, x, lo, hi, max Value) Value {
 			r := ex.sliceStr(*a.Rope, l, h)
 			return Slice{Rope: &r}
 		}
-		return ex.sliceSlice(a.A, a.Nil, l, h, m)
+		var elem types.Type
+		if st, ok := in.X.Type().Underlying().(*types.Slice); ok {
+			elem = st.Elem()
+		}
+		return ex.sliceSlice(a.A, a.Nil, l, h, m, elem)
 	case Ptr:
 		p := ex.derefPtr(a, "nil pointer dereference (slice of array)")
 		arr := (*p.P).(Array)
-		return ex.sliceSlice([]Value(arr), false, l, h, m)
+		return ex.sliceSlice([]Value(arr), false, l, h, m, nil)
 	case Poison:
 		return a
 	}
 	ex.bad("slice of", x); return nil
 }
 
-func (ex *Exec) sliceSlice(a []Value, isNil bool, l, h, m *Term) Value {
+func (ex *Exec) sliceSlice(a []Value, isNil bool, l, h, m *Term, elem types.Type) Value {
 	ts := ex.ts
 	capA := cap(a)
 	lenA := len(a)
@@ -812,7 +816,17 @@ func (ex *Exec) sliceSlice(a []Value, isNil bool, l, h, m *Term) Value {
 	if isNil && loC == 0 && hiC == 0 {
 		return Slice{Nil: true}
 	}
-	return Slice{A: a[:capA][loC:hiC:maxC]}
+	r := a[:capA][loC:hiC:maxC]
+	if elem != nil {
+		// cells of the spare capacity that were never written hold the
+		// element type's zero value once a re-slice exposes them
+		for i := range r {
+			if r[i] == nil {
+				r[i] = ex.zero(elem)
+			}
+		}
+	}
+	return Slice{A: r}
 }
 
 // ----------------------------------------------------------------------- maps
